@@ -9,7 +9,8 @@ ID = "C11"
 LEVEL = "exploration"
 RULE = ("inputs: every example file lasio can read and write (x 3 writer option sets), generated LASFiles (C03 header "
         "generator + odd units such as .1IN / hh:mm / 1000 lbf / bracketed, duplicated and blank mnemonics, empty "
-        "values, long fields, NaN samples, text curves) and generated texts (C05 section permutations), each with a "
+        "values, long fields, NaN samples, text curves incl. empty samples, samples with inner / trailing blanks or one "
+        "kind of quote) and generated texts (C05 section permutations), each with a "
         "drawn writer option set and 2..4 cycles. Oracle: t1 = write(read(x)); r1 = read(t1); then for k = 2..cycles "
         "t_k = write(r_(k-1)), r_k = read(t_k) must succeed and canonical content of r_k == r_1 (header values "
         "numerically, curve data exactly, NaN == NaN). Non-trivial: duplicate or blank mnemonic, odd unit, empty "
@@ -17,6 +18,8 @@ RULE = ("inputs: every example file lasio can read and write (x 3 writer option 
 ASSUMPTIONS = [
     "inputs that lasio cannot read, or cannot write the first time, are counted as rejected (outside the property)",
     "the same read options (mnemonic_case) and writer options are used in every cycle",
+    "text samples holding both quote characters (open finding D41) are excluded by construction and counted; the "
+    "example-corpus cases and the stored replay still report it",
 ]
 
 
@@ -59,11 +62,13 @@ def oracle(case):
         out.rejected = True
         out.cls("unreadable")
         return out
-    if text_with_blanks(las0):
-        out.excluded = True  # open finding D17
-        out.cls("excluded:text-sample-with-blanks")
-        if "file" not in src:
+    if text_unquotable(las0):
+        out.excluded = True  # open finding D41 (what is left of D17 after its repair)
+        out.cls("excluded:text-sample-with-both-quote-kinds")
+        if "file" not in src and not case.get("force"):
             return out
+    if text_with_blanks(las0):
+        out.cls("text-sample-with-blanks")
     feats = features(las0, opts)
     out.cls(*feats)
     out.nontrivial = bool(feats)
@@ -75,7 +80,7 @@ def oracle(case):
     r_prev = read_text(t1, **rk)
     tag = dlm_tag(las0) + "|" + ("text-with-blanks" if text_with_blanks(las0) else "text-curve" if "text-curve" in feats else "numeric")
     if is_raised(r_prev):
-        out.fail("text-sample-with-blanks-written-unquoted" if text_with_blanks(las0) else "reread-raises|%s|%s" % (r_prev.bucket, tag), "lasio cannot read its own output: %s\n%s\n--- written text ---\n%s"
+        out.fail("text-sample-with-both-quote-kinds-written-verbatim" if text_unquotable(las0) else "text-sample-with-blanks-written-unquoted" if text_with_blanks(las0) else "reread-raises|%s|%s" % (r_prev.bucket, tag), "lasio cannot read its own output: %s\n%s\n--- written text ---\n%s"
                  % (r_prev, inputs.describe(src)[:600], t1[:2500]))
         return out
     c1 = canon.from_las(r_prev)
@@ -115,6 +120,16 @@ def text_with_blanks(las):
         if c.data.dtype.kind in "USO":
             for x in c.data:
                 if isinstance(x, str) and (x == "" or any(ch.isspace() for ch in x)):
+                    return True
+    return False
+
+
+def text_unquotable(las):
+    """A text sample holding both quote characters cannot be quoted by the writer (open finding D41)."""
+    for c in las.curves:
+        if c.data.dtype.kind in "USO":
+            for x in c.data:
+                if isinstance(x, str) and '"' in x and "'" in x:
                     return True
     return False
 
